@@ -22,7 +22,7 @@ ASSUMPTIONS = [
     "itself the spelling without a trailing separator is accepted as well",
     "the entry must be one that existed at some time during the session (the harness's byte-level record of names)",
 ]
-MINIMUMS = {"quick": {"paths_judged": 3000, "paths_with_special_bytes": 500, "dual_watch_cases": 20}, "thorough": {"paths_judged": 200000}}
+MINIMUMS = {"quick": {"paths_judged": 3000, "paths_with_special_bytes": 500, "dual_watch_cases": 10}, "thorough": {"paths_judged": 200000}}
 WALL_CAP = {"quick": 170, "thorough": 3000}
 
 NAMES = ["a", "é", "☃", os.fsdecode(b"\xff\xfe.txt"), os.fsdecode(b"\xfd")]
